@@ -17,9 +17,10 @@ ASSUMPTIONS = ['with math_mode=verbatim the SOURCE of a formula is reproduced, c
                '(the expression parser consumes them: they are in no node)',
                'fill_text is exercised on the real code only (textwrap is an oracle)']
 PARTIAL = ['C12_comments_kept_covered_partial: presence of every kept comment is proved for the covered positions (lists, '
-           'groups, transparent environments, argument-concatenating macros, positional templates, formula bodies for '
-           'markers without trailing blank/newline); not for arguments substituted by key %(n)s, arguments of replacement '
-           'callables, matrix cells',
+           'groups, transparent environments, argument-concatenating macros, positional and keyed replacement templates, '
+           'formula bodies for markers without trailing blank/newline); not for arguments of replacement callables '
+           '(\\section, \\href, \\item[..], accents, math alphabets: several strip / re-case / re-style their argument) '
+           'and matrix cells',
            'C12_math_verbatim_covered_partial: presence of the source of every verbatim formula, same covered positions',
            'C12_source_level (DESIGN 6/C12: documents differing only in comment text convert equally, via the document '
            'grammar of C02) is not stated; the tree-level non-interference theorems are complete']
